@@ -1,7 +1,10 @@
 package mon
 
 import (
+	"encoding/json"
+	"errors"
 	"fmt"
+	"math"
 	"runtime"
 	"sort"
 	"strings"
@@ -145,6 +148,18 @@ func c07Round(c *Ctx, idx int) {
 	for range 3 {
 		directed = append(directed, topForeign...)
 	}
+	// document 9: values that to_string (the one builtin that serialises) refuses - NaN, infinities, a
+	// malformed json.Number, a failing marshaler - next to values it accepts: the failing and the
+	// succeeding paths of whatever the serialiser pools or caches then run concurrently
+	godocs[9], docs[9] = map[string]any{"bad": math.NaN(), "inf": math.Inf(1), "jn": json.Number("abc"), "fm": failingValue{err: errors.New("no")}, "items": []any{json.Number("1"), "two", []any{json.Number("3")}, map[string]any{"k": "v"}, nil, true},
+		"o": map[string]any{"a": json.Number("1"), "b": []any{"x", "y"}}, "badlist": []any{json.Number("1"), math.NaN()}, "late": []any{"a", "b", failingText{errors.New("late")}}}, nil
+	hostileTS := []string{"to_string(bad)", "to_string(inf)", "to_string(jn)", "to_string(fm)", "to_string(badlist)", "to_string(late)", "to_string(@)", "to_string(items)", "items[*].to_string(@)", "to_string(o)", "[to_string(items), to_string(o)]",
+		"map(&to_string(@), items)", "to_string(items[2])", "to_string(o.b)", "to_string(`[1,2,3]`)", "to_string({a: items, b: o})", "join('|', items[*].to_string(@))", "[to_string(o), to_string(bad)]", "to_string(items) || to_string(bad)", "length(to_string(items))",
+		"sort_by(items, &to_string(@))[*].to_string(@)", "to_string(fm) || to_string(o)", "not_null(missing, to_string(items))", "items[?to_string(@) == '\"two\"']", "to_string(badlist[0])", "to_string(late[:2])"}
+	nHostileFrom := len(directed)
+	for range 4 {
+		directed = append(directed, hostileTS...)
+	}
 	// expressions + sequential outcomes
 	var items []c07Item
 	nodeTypes := map[string]bool{}
@@ -159,9 +174,12 @@ func c07Round(c *Ctx, idx int) {
 			if len(items) >= nTopFrom {
 				d = 3 + 2*((len(items)-nTopFrom)/len(topForeign))
 			}
+			if len(items) >= nHostileFrom {
+				d = 9
+			}
 			goto have
 		}
-		for d == 1 || d == 3 || d == 5 || d == 7 {
+		for d == 1 || d == 3 || d == 5 || d == 7 || d == 9 {
 			d = 2 + r.Intn(ndocs-2)
 		}
 		switch r.Intn(5) {
